@@ -402,11 +402,13 @@ Definition step (o : op) (st : state) : state * outcome :=
     match getc st c with
     | None => (st, RErr XKey)
     | Some k =>
-      if zmem s (c_supers k) then (st, ROk [])
-      else match update_supertypes (set_supers st c (c_supers k ++ [s])) c with
-           | (st2, None) => (st2, ROk [])
-           | (st2, Some e) => (st2, RErr e)
-           end
+      (* appending a supertype that is already there changes nothing in the
+         ordered set but still notifies: the bases are recomputed *)
+      let ss := if zmem s (c_supers k) then c_supers k else c_supers k ++ [s] in
+      match update_supertypes (set_supers st c ss) c with
+      | (st2, None) => (st2, ROk [])
+      | (st2, Some e) => (st2, RErr e)
+      end
     end
   | RemoveSuper c s =>
     match getc st c with
